@@ -663,6 +663,42 @@ func (c *Ctx) bocDescriptors() {
 	})
 	c.check(spec8 && has(d1, token.MUL, 32), R, "d1 = refs + 8*exotic + 32*levelmask", d1.Pos(), "exotic flag is bit 3, level mask occupies bits 5-7", "the writer's d1 no longer places the exotic flag at bit 3 and the level mask at bits 5-7")
 	c.check(has(rd, token.REM, 8) && has(rd, token.AND, 8) && has(rd, token.AND, 16) && has(rd, token.SHR, 5), R, "reader extracts refs=d1%8, exotic=d1&8, hashes=d1&16, mask=d1>>5", rd.Pos(), "same bit fields as the writer", "the reader no longer extracts refs / exotic / with-hashes / level mask from d1 with %8, &8, &16, >>5")
+	// ... and the level mask the reader extracts keeps all three bits: the value shifted down by 5 is the byte
+	// itself or the byte under a mask that contains 0xE0, and what is kept of the result contains 0b111
+	okBits, nShift := true, 0
+	whyBits := ""
+	c.allInstrsDeep(rd, func(_ *ssa.BasicBlock, in ssa.Instruction) {
+		bo, isB := in.(*ssa.BinOp)
+		if !isB {
+			return
+		}
+		k, isK := constInt(bo.Y)
+		if !isK || !((bo.Op == token.SHR && k == 5) || (bo.Op == token.QUO && k == 32)) || intBits(bo.X.Type()) != 8 {
+			return
+		}
+		nShift++
+		if src, ok := stripConv(bo.X).(*ssa.BinOp); ok && src.Op == token.AND {
+			for _, o := range []ssa.Value{src.X, src.Y} {
+				if m, ok := constInt(o); ok && m&0xE0 != 0xE0 {
+					okBits = false
+					whyBits = fmt.Sprintf("the descriptor byte is masked with %#x before the shift", m)
+				}
+			}
+		}
+		for _, r := range realRefs(bo) {
+			if and, ok := r.(*ssa.BinOp); ok && and.Op == token.AND {
+				for _, o := range []ssa.Value{and.X, and.Y} {
+					if m, ok := constInt(o); ok && m&7 != 7 {
+						okBits = false
+						whyBits = fmt.Sprintf("the shifted value is masked with %#x", m)
+					}
+				}
+			}
+		}
+	})
+	if nShift > 0 {
+		c.check(okBits, R, "the reader keeps all three bits of the level mask", rd.Pos(), "d1>>5 unmasked, or masked with 0xE0 / 0b111", "the reader drops a bit of the level mask ("+whyBits+"): a cell of level 3 is parsed with a smaller mask, its stored hashes are miscounted and its hash differs from the one the serialiser computed")
+	}
 	// d2: ceil(bits/8) + floor(bits/8) on the writer; (d2>>1)+(d2%2) bytes and d2%2 == 0 <=> full bytes on the reader
 	d2 := c.fn("boc", "d2")
 	if d2 == nil {
